@@ -513,14 +513,39 @@ theorem adjoint (D : PoolDims) (x y gy gx dx : Buf α) (nx : Nat) (am : Nat × N
     obtain ⟨t, ht, rfl⟩ := List.mem_map.mp hp
     exact hb t ht
 
-/-- The flat-index form (`Σ_{n < |y|} gy[n] · jvp[n]`): needs the enumeration lemma for the three-level
-nest `outer` (`outer.map ya = List.range |y|`, the analogue of `range2_addr`); stated, not proved. -/
-def adjoint_full : Prop :=
-  ∀ (D : PoolDims) (x y gy gx dx : Buf ℚ) (nx : Nat) (am : Nat × Nat × Nat → Nat) (jvp : Nat → ℚ),
-    (∀ t ∈ D.outer, firstMatch D x y t = some (am t)) → (∀ t ∈ D.outer, am t < nx) →
-    (∀ t ∈ D.outer, jvp (D.ya t) = dx (am t)) →
-    ∑ j ∈ range nx, (maxPoolBw D x y gy gx j - gx j) * dx j = ∑ n ∈ range (D.rep * (D.yh * D.yw)), gy n * jvp n
+/-- The flat-index form: `Σ⟪gx′ − gx, dx⟫ = Σ_{n < |y|} gy[n] · jvp[n]` for every `jvp` that selects the cell
+`am t` for output cell `t` (`jvp[ya t] = dx[am t]`).  No uniqueness is assumed here: `am t` is whatever cell the
+scan of max_pool2d_bw stops at (`firstMatch`), i.e. with ties the law holds for the selection "first maximal
+cell in scan order" — see `max_not_differentiable_at_tie` for why no derivative exists at a tie. -/
+theorem adjoint_flat (D : PoolDims) (x y gy gx dx : Buf α) (nx : Nat) (am : Nat × Nat × Nat → Nat) (jvp : Nat → α)
+    (hfm : ∀ t ∈ D.outer, firstMatch D x y t = some (am t)) (hb : ∀ t ∈ D.outer, am t < nx)
+    (hj : ∀ t ∈ D.outer, jvp (D.ya t) = dx (am t)) :
+    ∑ j ∈ range nx, (maxPoolBw D x y gy gx j - gx j) * dx j
+      = ∑ n ∈ range (D.rep * (D.yh * D.yw)), gy n * jvp n := by
+  rw [adjoint D x y gy gx dx nx am hfm hb, Nat.mul_comm D.yh D.yw,
+    ← sum_range3_flat D.rep D.yw D.yh fun n => gy n * jvp n]
+  apply congrArg List.sum
+  apply List.map_congr_left
+  intro t ht
+  have hya : D.ya t = t.1 * (D.yw * D.yh) + (t.2.1 * D.yh + t.2.2) := by
+    simp only [PoolDims.ya, Nat.mul_comm D.yh D.yw]
+  rw [← hya, hj t ht]
 
 end MaxPool
+
+/-- Why the unique-maximum hypothesis of the *derivative* reading cannot be dropped: at a tie the maximum of two
+cells is not differentiable (here `max x 0` at `x = 0`), so there is no derivative a backward kernel could equal.
+`MaxPool.adjoint` itself needs no uniqueness: it is the adjoint law for the selection the kernel makes. -/
+theorem max_not_differentiable_at_tie : ¬ DifferentiableAt ℝ (fun x : ℝ => max x 0) 0 := by
+  intro h
+  have habs : DifferentiableAt ℝ (fun x : ℝ => |x|) 0 := by
+    have e : (fun x : ℝ => |x|) = fun x => 2 * max x 0 - x := by
+      funext x
+      rcases le_total 0 x with hx | hx
+      · rw [abs_of_nonneg hx, max_eq_left hx]; ring
+      · rw [abs_of_nonpos hx, max_eq_right hx]; ring
+    rw [e]
+    exact (h.const_mul 2).sub differentiableAt_id
+  exact not_differentiableAt_abs_zero habs
 
 end Primitiv.C01.Arith
